@@ -36,7 +36,12 @@ EXTENDS SheetRef
 
 CONSTANTS
     Place,
-    Window,      \* bounded exploration: items fall in a Window x Window square
+    MergeMode,   \* "all": every merged region blanks its covered cells.  "interior": regions
+                 \* whose top-left cell lies in the last populated row or column are ignored
+                 \* (extent taken as a count where it is a maximum) - TLC must refute it
+    Ordered,     \* bounded exploration: TRUE = cells are written in row-major order only, so
+                 \* every SET of populated cells is one state (used to enumerate all subsets)
+    Window, WindowRows,   \* bounded exploration: items fall in a window of Window columns x WindowRows rows
     Offsets,     \* ... whose top-left corner is Offsets-shifted: <<dc, dr>>
     Rects,       \* ... the merged regions tried, as rectangles inside the window
     MaxCells, MaxMerges, MaxSheets,   \* per workbook: cells, merged regions, sheets
@@ -48,7 +53,8 @@ VARIABLES
     cur,             \* current worksheet, 1..MaxSheets
     items,           \* items[sh]  : cell items of sheet sh in file order
     mseq,            \* mseq[sh]   : merged regions of sheet sh in file order
-    grid,            \* grid[sh]   : set of [c, r, d] - the displayed sheet
+    grid,            \* grid[sh]   : set of [c, r, d] - the values the reader stored (incl. values
+                     \*              of cells covered by a merged region); Shown(sh) is displayed
     nv               \* number of cells written so far = last value id
 
 vars == <<off, rot, lay, cur, items, mseq, grid, nv>>
@@ -91,8 +97,8 @@ WriteCell(c, r, t, v) ==
     /\ v = nv + 1
     \* a sheet holds at most one cell element per address
     /\ \A it \in ItemSet(cur) : ~(it.c = c /\ it.r = r)
-    \* positions covered by a merged region hold no value (only blanks)
-    /\ \A m \in MergeSet(cur) : (InRect(m, c, r) /\ ~IsRoot(m, c, r)) => t = "z"
+    \* a cell covered by a merged region MAY carry a (stale) value in the file - the schema
+    \* does not forbid it and writers that merge without clearing produce it; it is not shown
     /\ items' = [items EXCEPT ![cur] = Append(@, [c |-> c, r |-> r, t |-> t, v |-> v])]
     /\ grid' = IF t = "z" THEN grid
                ELSE [grid EXCEPT ![cur] = @ \cup {[c |-> PlaceAt(c, r)[1], r |-> PlaceAt(c, r)[2],
@@ -103,7 +109,6 @@ WriteCell(c, r, t, v) ==
 AddMerge(m) ==
     /\ IsRect(m) /\ m[1] >= 1 /\ m[2] >= 1
     /\ \A o \in MergeSet(cur) : Disjoint(m, o)
-    /\ \A it \in ItemSet(cur) : (InRect(m, it.c, it.r) /\ ~IsRoot(m, it.c, it.r)) => it.t = "z"
     /\ mseq' = [mseq EXCEPT ![cur] = Append(@, m)]
     /\ UNCHANGED <<off, rot, lay, cur, items, grid, nv>>
 
@@ -114,7 +119,7 @@ NewSheet ==
     /\ UNCHANGED <<off, rot, lay, nv>>
 
 \* ------------------------- bounded exploration -------------------------
-WindowRects == {m \in (1..Window) \X (1..Window) \X (1..Window) \X (1..Window) : IsRect(m)}
+WindowRects == {m \in (1..Window) \X (1..WindowRows) \X (1..Window) \X (1..WindowRows) : IsRect(m)}
 RECURSIVE CountMerges(_)
 CountMerges(k) == IF k = 0 THEN 0 ELSE CountMerges(k - 1) + Len(mseq[k])
 Shift(m) == <<m[1] + off[1], m[2] + off[2], m[3] + off[1], m[4] + off[2]>>
@@ -126,8 +131,9 @@ Next ==
           \* live in their own element, so their position among the cells means nothing
           /\ items[cur] = <<>> /\ CountMerges(cur) < MaxMerges
           /\ AddMerge(Shift(m))
-    \/ \E c \in 1..Window, r \in 1..Window :
+    \/ \E c \in 1..Window, r \in 1..WindowRows :
           /\ nv < MaxCells
+          /\ Ordered => \A it \in ItemSet(cur) : it.r < off[2] + r \/ (it.r = off[2] + r /\ it.c < off[1] + c)
           /\ WriteCell(off[1] + c, off[2] + r, KindOf(nv + 1), nv + 1)
     \/ cur < MaxSheets /\ NewSheet
 
@@ -139,8 +145,19 @@ TypeOK ==
     /\ Len(items) = cur /\ Len(mseq) = cur /\ Len(grid) = cur
     /\ \A sh \in 1..cur : \A g \in grid[sh] : g.c >= 1 /\ g.r >= 1
 
-\* THE property: the displayed sheet is exactly "value at the address its
-\* reference names", whatever the file order was.
+\* populated extent of a sheet: largest column / row that has a cell element
+Max(S) == IF S = {} THEN 0 ELSE CHOOSE x \in S : \A y \in S : x >= y
+Extent(sh) == [c |-> Max({it.c : it \in ItemSet(sh)}), r |-> Max({it.r : it \in ItemSet(sh)})]
+
+\* the merged regions the reader honours, and what it therefore displays
+Effective(sh) ==
+    IF MergeMode = "all" THEN MergeSet(sh)
+    ELSE {m \in MergeSet(sh) : m[1] < Extent(sh).c /\ m[2] < Extent(sh).r}
+Hidden(sh, c, r) == \E m \in Effective(sh) : InRect(m, c, r) /\ ~IsRoot(m, c, r)
+Shown(sh) == {g \in grid[sh] : ~Hidden(sh, g.c, g.r)}
+
+\* THE property, part 1: every value is stored at the address its reference names,
+\* whatever the file order was.
 PlacedByRef ==
     \A sh \in 1..cur :
         grid[sh] = { [c |-> it.c, r |-> it.r, d |-> Display(it.t, it.v)] : it \in {x \in ItemSet(sh) : x.t # "z"} }
@@ -149,10 +166,21 @@ PlacedByRef ==
 FunctionLike ==
     \A sh \in 1..cur : \A g, h \in grid[sh] : (g.c = h.c /\ g.r = h.r) => g = h
 
-\* merged regions: blank everywhere but the top-left cell
+\* part 2, merged regions: blank everywhere but the top-left cell - wherever the region
+\* lies relative to the populated grid (first / interior / last row and column, reaching
+\* beyond it) and whether or not the covered cells carry stale values in the file
 MergeBlank ==
     \A sh \in 1..cur : \A m \in MergeSet(sh) : \A p \in Covered(m) :
-        ~ \E g \in grid[sh] : g.c = p[1] /\ g.r = p[2]
+        ~ \E g \in Shown(sh) : g.c = p[1] /\ g.r = p[2]
+
+\* ... and the top-left value itself stays visible
+RootShown ==
+    \A sh \in 1..cur : \A g \in grid[sh] :
+        (\A m \in MergeSet(sh) : InRect(m, g.c, g.r) => IsRoot(m, g.c, g.r)) => g \in Shown(sh)
+
+\* merge metadata a grid exposes: the root of region m spans Rows(m) x Cols(m)
+SpanRows(m) == m[4] - m[2] + 1
+SpanCols(m) == m[3] - m[1] + 1
 
 \* a later item never moves or removes an earlier cell, and adds at most one
 Locality ==
@@ -164,13 +192,13 @@ Locality ==
 \* field c.  The Markdown table and the model table may drop empty leading /
 \* trailing rows and columns, i.e. they are the grid translated by one offset
 \* for the whole sheet; Bounds is the content box such a translation refers to.
-NonBlank(sh) == grid[sh]
+NonBlank(sh) == Shown(sh)
 Bounds(sh) ==
-    IF grid[sh] = {} THEN [c1 |-> 0, r1 |-> 0, c2 |-> 0, r2 |-> 0]
-    ELSE [c1 |-> CHOOSE x \in {g.c : g \in grid[sh]} : \A g \in grid[sh] : x <= g.c,
-          r1 |-> CHOOSE x \in {g.r : g \in grid[sh]} : \A g \in grid[sh] : x <= g.r,
-          c2 |-> CHOOSE x \in {g.c : g \in grid[sh]} : \A g \in grid[sh] : x >= g.c,
-          r2 |-> CHOOSE x \in {g.r : g \in grid[sh]} : \A g \in grid[sh] : x >= g.r]
+    IF Shown(sh) = {} THEN [c1 |-> 0, r1 |-> 0, c2 |-> 0, r2 |-> 0]
+    ELSE [c1 |-> CHOOSE x \in {g.c : g \in Shown(sh)} : \A g \in Shown(sh) : x <= g.c,
+          r1 |-> CHOOSE x \in {g.r : g \in Shown(sh)} : \A g \in Shown(sh) : x <= g.r,
+          c2 |-> CHOOSE x \in {g.c : g \in Shown(sh)} : \A g \in Shown(sh) : x >= g.c,
+          r2 |-> CHOOSE x \in {g.r : g \in Shown(sh)} : \A g \in Shown(sh) : x >= g.r]
 CoveredSet(sh) == UNION {Covered(m) : m \in MergeSet(sh)}
 
 =============================================================================
